@@ -1,6 +1,7 @@
 package c33
 
 import (
+	"encoding/json"
 	"fmt"
 	"testing"
 
@@ -77,6 +78,20 @@ var enumTypes = []enumType{
 	}},
 	{"x509.SignatureAlgorithm", 0, 16, func(v int, r *kit.R) bool { // all constants
 		x := zx509.SignatureAlgorithm(v)
+		if v == 0 {
+			// UnknownSignatureAlgorithm encodes with an empty OID and zcrypto's own test
+			// (x509/json_test.go TestSignatureAlgorithmJSON, "Should fail on unrecognized algorithm")
+			// requires decoding it to fail: outside the round-trip domain, totality only.
+			g := kit.GuardInline(func() {
+				b, _ := json.Marshal(&x)
+				var w zx509.SignatureAlgorithm
+				if err := json.Unmarshal(b, &w); err != nil {
+					r.Class("x509.SignatureAlgorithm/unknown-rejected-by-design")
+				}
+			})
+			r.Must(g, "x509.SignatureAlgorithm(0) JSON")
+			return false
+		}
 		roundTrip(r, fmt.Sprintf("x509.SignatureAlgorithm:value=%d", v), &x, eqSimple[zx509.SignatureAlgorithm])
 		return v != 0
 	}},
@@ -128,9 +143,9 @@ func checkEnum(c EnumCase, r *kit.R) {
 
 func TestPropEnums(t *testing.T) {
 	kit.Run(t, kit.Spec[EnumCase]{ID: "C33", Name: "enums", Check: checkEnum, Enum: enumAll,
-		Rule: "exhaustive: every value of tls.TLSVersion, CipherSuiteID, CurveID, json.TLSCurveID (0..65535), CompressionMethod, PointFormat (0..255), SignatureAndHash (all 65536 pairs), ClientAuthType 0..5, x509.KeyUsage 0..1023, every constant of PublicKeyAlgorithm (0..5), SignatureAlgorithm (0..16), CertificateType (0..3), crl.RevocationReasonCode -1..20; non-trivial: value without a registered name",
+		Rule: "exhaustive: every value of tls.TLSVersion, CipherSuiteID, CurveID, json.TLSCurveID (0..65535), CompressionMethod, PointFormat (0..255), SignatureAndHash (all 65536 pairs), ClientAuthType 0..5, x509.KeyUsage 0..1023, every constant of PublicKeyAlgorithm (0..5), SignatureAlgorithm (1..16; 0 = unknown is executed for totality only), CertificateType (0..3), crl.RevocationReasonCode -1..20; non-trivial: value without a registered name",
 		Assumptions: []string{
 			"values are encoded through a pointer (json.Marshal(&v)): most of these types declare MarshalJSON on the pointer receiver, so encoding a bare non-addressable value would silently use Go's default number encoding, which their UnmarshalJSON does not read",
-			"x509.SignatureAlgorithm, PublicKeyAlgorithm and CertificateType are documented to encode unknown values by name only; only their declared constants are in the domain",
+			"x509.SignatureAlgorithm, PublicKeyAlgorithm and CertificateType are documented to encode unknown values by name only; only their declared constants are in the domain; UnknownSignatureAlgorithm is required by zcrypto's own tests to be rejected by the decoder and is only executed for totality",
 		}})
 }
